@@ -1577,19 +1577,24 @@ def c09(ctx):
                     with open(pth, "wb") as f:
                         f.write(P)
                 r1 = sh([bita, "clone", "--seed", pf, arc, os.path.join(d, f"fresh-{pname}.bin")])
-                r2 = sh([bita, "clone", "--seed-output", arc, po])
-                n += 1
-                u1, u2 = used(r1), used(r2)
-                detail = {"chunker": cname, "bytes": pname, "bytes_used_as_seed_file": u1, "bytes_used_as_prior_output": u2}
-                if r1.returncode != 0 or r2.returncode != 0:
-                    viol.add("valid-clone-failed", dict(detail, stderr=(r1.stderr + r2.stderr).decode()[-300:]))
-                elif u1 != u2:
-                    viol.add("chunks-found-differ-between-seed-file-and-prior-output", detail)
-                distinct.add((cname, pname))
+                u1 = used(r1)
+                # ... whatever else is on the command line next to --seed-output
+                for extra in ([], ["-f"], ["--verify-output"], ["--buffered-chunks", "1"], ["-f", "--verify-output", "--buffered-chunks", "3"]):
+                    with open(po, "wb") as f:
+                        f.write(P)
+                    r2 = sh([bita, "clone", "--seed-output"] + extra + [arc, po])
+                    n += 1
+                    u2 = used(r2)
+                    detail = {"chunker": cname, "bytes": pname, "other_options": extra, "bytes_used_as_seed_file": u1, "bytes_used_as_prior_output": u2}
+                    if r1.returncode != 0 or r2.returncode != 0:
+                        viol.add("valid-clone-failed", dict(detail, stderr=(r1.stderr + r2.stderr).decode()[-300:]))
+                    elif u1 != u2:
+                        viol.add("chunks-found-differ-between-seed-file-and-prior-output", detail)
+                    distinct.add((cname, pname, tuple(extra)))
     finally:
         shutil.rmtree(root, ignore_errors=True)
     cov = {"evaluations": n, "cli_context_cases": n, "distinct_nontrivial": len(distinct), "exhaustive": True,
-           "rule": "real binary, differential: a 40 kB source under {RollSum, BuzHash, FixedSize, RollSum / BuzHash with the minimum below the window}; a clone seeded with the source itself takes every byte from the seed (13 source lengths per chunker, so that the last chunk is shorter than the minimum); the bytes the clone reports as taken from seeds with seed B alone must equal those with an unrelated seed of 1 / 63 / 1001 / 4097 bytes given before B, after B, or twice before B; and the same bytes {junk+source+tail, rotated source, first half} must yield the same reuse as a seed file and as prior output (--seed-output)"}
+           "rule": "real binary, differential: a 40 kB source under {RollSum, BuzHash, FixedSize, RollSum / BuzHash with the minimum below the window}; a clone seeded with the source itself takes every byte from the seed (13 source lengths per chunker, so that the last chunk is shorter than the minimum); the bytes the clone reports as taken from seeds with seed B alone must equal those with an unrelated seed of 1 / 63 / 1001 / 4097 bytes given before B, after B, or twice before B; and the same bytes {junk+source+tail, rotated source, first half} must yield the same reuse as a seed file and as prior output (--seed-output alone and next to -f / --verify-output / --buffered-chunks)"}
     return result(ctx["pid"], "exploration", cov, viol, t0, ["A5; the command's own report line is the observation"])
 
 
